@@ -787,7 +787,33 @@ theorem onBatch_spec (hsep : SepOk cfg E c) (plan : Nat → Fault) (now : Parts)
     obtain ⟨res, oa, s2⟩ := w
     simp only at w1 w2' w3
     cases res with
-    | retry b' => exact ⟨a1.trans w1, fun a ha => by simp only at ha; rw [w2'] at ha; cases ha⟩
+    | retry b' =>
+      simp only [syncWritten]
+      split
+      · have f1 := flushFile_steps (cfg := cfg) (E := E) (c := c) (N := N) plan s2
+        have f2 := flushFile_active plan w2'
+        cases hf : flushFile plan s2 with
+        | err s3 =>
+          simp only [hf, R.st] at f1 f2 ⊢
+          exact ⟨(a1.trans w1).trans f1, fun a ha => by rw [f2] at ha; cases ha⟩
+        | crash s3 =>
+          simp only [hf, R.st] at f1 f2 ⊢
+          exact ⟨(a1.trans w1).trans f1, fun a ha => by rw [f2] at ha; cases ha⟩
+        | ok u s3 =>
+          simp only [hf, R.st] at f1 f2 ⊢
+          have y1 := syncAll_steps (cfg := cfg) (E := E) (c := c) (N := N) plan hok.1 s3
+          have y2 := syncAll_active plan a.name f2
+          cases hy : syncAll plan a.name s3 with
+          | err s4 =>
+            simp only [hy, R.st] at y1 y2 ⊢
+            exact ⟨((a1.trans w1).trans f1).trans y1, fun a ha => by rw [y2] at ha; cases ha⟩
+          | crash s4 =>
+            simp only [hy, R.st] at y1 y2 ⊢
+            exact ⟨((a1.trans w1).trans f1).trans y1, fun a ha => by rw [y2] at ha; cases ha⟩
+          | ok u s4 =>
+            simp only [hy, R.st] at y1 y2 ⊢
+            exact ⟨((a1.trans w1).trans f1).trans y1, fun a ha => by rw [y2] at ha; cases ha⟩
+      · exact ⟨a1.trans w1, fun a ha => by simp only at ha; rw [w2'] at ha; cases ha⟩
     | noRetry => exact ⟨a1.trans w1, fun a ha => by simp only at ha; rw [w2'] at ha; cases ha⟩
     | crashed => exact ⟨a1.trans w1, fun a ha => by simp only at ha; rw [w2'] at ha; cases ha⟩
     | ok =>
